@@ -30,6 +30,7 @@ EXPLANATION = (
   " (NUL-field) as in C09;"
   " (TAB-compute-order) as in C13;"
   " (NUL, arithmetic) as in C11;"
+  ' (FRESH) a model element pushed inside a loop is constructed inside that loop, so no iteration pushes an element that already has a parent; (INV-ruby) in the WebVTT cue parser the cursor is a Ruby only while both ruby containers are set; (NONZERO) frame and tick rates reaching the time-expression parser are positive;'
 )
 RULE_TEXT = "per function / class / dereference / extraction site / raise statement"
 UNDECIDED = ["termination", "RecursionError (input-depth recursion exists in from_xml, dfs_iterator, _process_element)", "TypeError / AssertionError guarded by data-dependent invariants",
